@@ -950,6 +950,49 @@ func (g *Gen) genC10() {
 				})
 			}})
 		}
+		// Content-Length / Expires / CSeq through the header-line parser, chunked
+		for _, hn := range []string{"Content-Length", "l", "Expires", "CSeq"} {
+			hn := hn
+			val := d
+			if hn == "CSeq" {
+				val = d + " ACK"
+			}
+			text := hn + ": " + val + "\r\nX"
+			cuts := cut(text)
+			g.add(Case{Prop: "C10", Desc: "hdrline-" + hn, Lines: []string{parseSess("hdrline 1 0", text, 0, cuts, 0, false, "O")}, Check: func(out []string) string {
+				return protect(func() string {
+					var h sipsp.Hdr
+					var pv sipsp.PHdrVals
+					bb := []byte(text)
+					var err sipsp.ErrorHdr
+					off := 0
+					for _, c := range cuts {
+						off, err = sipsp.ParseHdrLine(bb[:c], off, &h, &pv)
+						if err != sipsp.ErrHdrMoreBytes {
+							break
+						}
+					}
+					if err != 0 {
+						return ""
+					}
+					switch hn {
+					case "Content-Length", "l":
+						if v.Cmp(big.NewInt(1<<24)) > 0 || len(d) > 9 || v.Cmp(big.NewInt(int64(pv.CLen.UIVal))) != 0 {
+							return fmt.Sprintf("Content-Length %q accepted as %d (chunked at %v)", d, pv.CLen.UIVal, cuts)
+						}
+					case "Expires":
+						if v.Cmp(two32) >= 0 || v.Cmp(big.NewInt(int64(pv.Expires.UIVal))) != 0 {
+							return fmt.Sprintf("Expires %q accepted as %d (chunked at %v)", d, pv.Expires.UIVal, cuts)
+						}
+					case "CSeq":
+						if v.Cmp(two32) >= 0 || v.Cmp(big.NewInt(int64(pv.CSeq.CSeqNo))) != 0 {
+							return fmt.Sprintf("CSeq %q accepted as %d (chunked at %v)", d, pv.CSeq.CSeqNo, cuts)
+						}
+					}
+					return ""
+				})
+			}})
+		}
 		// Contact expires / q
 		{
 			text := "<sip:a@b>;expires=" + d + "\r\nX"
